@@ -1,7 +1,7 @@
 (* C06 -- proofs about Model/CoreC06.v (see that file for the definitions). *)
 From Coq Require Import List Arith Bool PeanoNat Lia.
 Import ListNotations.
-Require Import TL.Model.Core TL.Model.CoreC06.
+Require Import TL.Model.Core TL.Model.CoreC06 TL.Model.CoreC06Toy.
 
 (* ------------------------------------------------------------------ generic list / monad lemmas *)
 Lemma mapM_pres {A B} (Q : A -> Prop) (P : B -> Prop) (f : A -> res B) :
@@ -144,11 +144,11 @@ Variable nm : pv -> res pv.
 Variable P : pv -> Prop.
 Variable robust_leaf wire_leaf : nat -> bool.
 Variable none_ok : bool.
-Variable R : nat -> bool.
+Variable R F : nat -> bool.
 Variable leaf_valid : nat -> pv -> bool.
 
 Notation robust := (robust_ty robust_leaf none_ok R).
-Notation fa := (fa_ty robust_leaf wire_leaf none_ok R).
+Notation fa := (fa_ty robust_leaf wire_leaf none_ok R F).
 
 Hypothesis Hleaf : forall s x w, robust_leaf s = true -> leaf_m rt s x = Ok w -> P w.
 Hypothesis Hnm : none_ok = true -> forall x w, nm x = Ok w -> P w.
@@ -253,7 +253,7 @@ Qed.
 (* valid inputs of fully annotated types *)
 Hypothesis Hleafv : forall s x w, wire_leaf s = true -> leaf_valid s x = true -> leaf_m rt s x = Ok w -> P w.
 Hypothesis Hnmv : forall x w, is_none_val rt x = true -> nm x = Ok w -> P w.
-Hypothesis HenvF : env_fa E robust_leaf wire_leaf none_ok R.
+Hypothesis HenvF : env_fa E robust_leaf wire_leaf none_ok R F.
 
 Notation val := (valid rt E leaf_valid).
 
@@ -317,21 +317,21 @@ Proof.
       * eapply forallb_forall in HV; [|exact Hin]. exact HV.
   - eapply (marG_robust (S m) (TUnion ts)); [exact HA | exact HM].
   - destruct (E c) as [[cd|t']|] eqn:HE; try discriminate.
-    + specialize (HenvF c _ HE). cbn [def_ok] in HenvF.
+    + specialize (HenvF c _ HA HE). cbn [def_ok] in HenvF.
       destruct v; try discriminate; eapply class_case; eauto.
-    + eapply IH; [|exact HV|exact HM]. apply (HenvF c _ HE).
+    + eapply IH; [|exact HV|exact HM]. apply (HenvF c _ HA HE).
   - destruct (E c) as [[cd|t']|] eqn:HE; try discriminate.
-    + specialize (HenvF c _ HE). cbn [def_ok] in HenvF.
+    + specialize (HenvF c _ HA HE). cbn [def_ok] in HenvF.
       destruct v; try discriminate; eapply class_case; eauto.
-    + eapply IH; [|exact HV|exact HM]. apply (HenvF c _ HE).
+    + eapply IH; [|exact HV|exact HM]. apply (HenvF c _ HA HE).
   - eapply Hleafv; eauto.
   - eapply IH; eauto.
   - eapply IH; eauto.
   - eapply IH; eauto.
   - destruct (E c) as [[cd|t']|] eqn:HE; try discriminate.
-    + specialize (HenvF c _ HE). cbn [def_ok] in HenvF.
+    + specialize (HenvF c _ HA HE). cbn [def_ok] in HenvF.
       destruct v; try discriminate; eapply class_case; eauto.
-    + eapply IH; [|exact HV|exact HM]. apply (HenvF c _ HE).
+    + eapply IH; [|exact HV|exact HM]. apply (HenvF c _ HA HE).
   - eapply IH; eauto.
   - eapply IH; eauto.
 Qed.
@@ -395,7 +395,7 @@ Variable rt : runtime.
 Variable E : env.
 Variable prim_atom : nat -> bool.
 Variable robust_leaf wire_leaf : nat -> bool.
-Variable R : nat -> bool.
+Variable R F : nat -> bool.
 Variable leaf_valid : nat -> pv -> bool.
 Variable lit_leaf : nat -> bool.
 Variable lit_member : nat -> pv -> bool.
@@ -431,11 +431,11 @@ Proof.
 Qed.
 
 (* repaired routine, valid inputs of fully annotated types *)
-Lemma fixed_wire_valid : Laws -> forall T, fully_annotated E robust_leaf wire_leaf true R T ->
+Lemma fixed_wire_valid : Laws -> forall T, fully_annotated E robust_leaf wire_leaf true R F T ->
   forall m n v w, valid rt E leaf_valid n T v = true -> mar_fixed rt E m T v = Ok w -> wire w = true.
 Proof.
   intros L T (HR & HF & HT) m n v w. unfold mar_fixed. revert HT.
-  apply (marG_valid rt E (none_m rt) (fun w => wire w = true) robust_leaf wire_leaf true R leaf_valid).
+  apply (marG_valid rt E (none_m rt) (fun w => wire w = true) robust_leaf wire_leaf true R F leaf_valid).
   - intros s x w0. apply (law_robust _ _ _ _ _ _ _ L).
   - intros _. apply none_m_wire. exact L.
   - apply none_is_wire. exact L.
@@ -450,11 +450,11 @@ Qed.
 
 (* Core.mar as it stands: none_ok = false, i.e. no NoneType member where a union (or a robust definition) hands
    an arbitrary input to it *)
-Lemma current_wire_valid : Laws -> forall T, fully_annotated E robust_leaf wire_leaf false R T ->
+Lemma current_wire_valid : Laws -> forall T, fully_annotated E robust_leaf wire_leaf false R F T ->
   forall m n v w, valid rt E leaf_valid n T v = true -> mar rt E m T v = Ok w -> wire w = true.
 Proof.
   intros L T (HR & HF & HT) m n v w. rewrite mar_is_marG. revert HT.
-  apply (marG_valid rt E none_echo (fun w => wire w = true) robust_leaf wire_leaf false R leaf_valid).
+  apply (marG_valid rt E none_echo (fun w => wire w = true) robust_leaf wire_leaf false R F leaf_valid).
   - intros s x w0. apply (law_robust _ _ _ _ _ _ _ L).
   - discriminate.
   - apply none_is_wire. exact L.
@@ -503,7 +503,7 @@ Proof.
   intros L s x m Hs Hx. cbn. split; apply (law_literal _ _ _ _ _ _ _ L); assumption.
 Qed.
 
-Lemma fixed_shape : Laws -> forall T, fully_annotated E robust_leaf wire_leaf true R T ->
+Lemma fixed_shape : Laws -> forall T, fully_annotated E robust_leaf wire_leaf true R F T ->
   forall m n v w, valid rt E leaf_valid n T v = true -> mar_fixed rt E m T v = Ok w -> only_list_dict w = true.
 Proof.
   intros L T HT m n v w HV HM. eapply wire_only_list_dict. eapply fixed_wire_valid; eauto.
@@ -514,3 +514,36 @@ Lemma fixed_deterministic : forall m T x w1 w2,
 Proof. intros m T x w1 w2 H1 H2. rewrite H1 in H2. injection H2 as <-. reflexivity. Qed.
 
 End Props.
+
+(* ------------------------------------------------------------------ the toy runtime satisfies the laws *)
+Lemma toy_laws : MarshalLaws (toy_rt false) toy_prim toy_robust toy_robust toy_valid toy_lit toy_lit_member.
+Proof.
+  split.
+  - exists 0. split; reflexivity.
+  - intros s x w Hs H. cbn [toy_rt leaf_m] in H.
+    destruct s as [|[|[|s]]]; [| | |discriminate Hs];
+      (destruct x as [a| | | | | ]; [|discriminate H..]);
+      do 8 (try destruct a as [|a]); cbn in H; try discriminate H; injection H as <-; reflexivity.
+  - intros s x w Hs _ H. cbn [toy_rt leaf_m] in H.
+    destruct s as [|[|[|s]]]; [| | |discriminate Hs];
+      (destruct x as [a| | | | | ]; [|discriminate H..]);
+      do 8 (try destruct a as [|a]); cbn in H; try discriminate H; injection H as <-; reflexivity.
+  - intros s x Hs Hx. cbn [toy_rt leaf_m]. unfold toy_lit in Hs. apply Nat.eqb_eq in Hs. subst s.
+    destruct x as [a| | | | | ]; try reflexivity.
+    do 8 (try destruct a as [|a]); try reflexivity. discriminate Hx.
+Qed.
+
+Lemma toy_env_robust : env_robust toy_E toy_robust true toy_R.
+Proof.
+  intros c d HR HE. destruct c as [|c]; [|discriminate HR]. cbn in HE. injection HE as <-. reflexivity.
+Qed.
+
+Lemma toy_env_fa : env_fa toy_E toy_robust toy_robust true toy_R toy_R.
+Proof.
+  intros c d _ HE. destruct c as [|c]; [|discriminate HE]. cbn in HE. injection HE as <-. reflexivity.
+Qed.
+
+Lemma empty_env_robust b R : env_robust empty_E toy_robust b R.
+Proof. intros c d _ HE. discriminate HE. Qed.
+Lemma empty_env_fa b R F : env_fa empty_E toy_robust toy_robust b R F.
+Proof. intros c d _ HE. discriminate HE. Qed.
